@@ -26,8 +26,34 @@ import (
 	"github.com/tellor-io/layer/lib"
 )
 
-// Watchdog is the longest time the scheduler waits for a released goroutine to park again.
+// Watchdog is the longest time the scheduler waits without any progress: no client reaches a
+// yield point although at least one released client is neither parked nor asleep on a lock (or
+// every unfinished client sleeps in a wait that no client can end). It is the simulator's own
+// dead-man switch (exit 2), not part of any verdict.
 var Watchdog = 5 * time.Second
+
+// BlockedAfter is how long a released client may stay silent before the scheduler looks at its
+// goroutine state (env PRICESIM_BLOCKED_AFTER_MS). It only decides WHEN the scheduler looks: a
+// client is classified as "asleep on a real lock" from a goroutine dump in which every client
+// goroutine of the process is parked or asleep (see gstate.go), never from the elapsed time. A
+// loaded machine therefore delays the classification but cannot change it.
+var BlockedAfter = envMillis("PRICESIM_BLOCKED_AFTER_MS", 20*time.Millisecond)
+
+// BlockedConfirm replaces BlockedAfter for a release of which the replayed trace says that it
+// ends asleep on a lock (env PRICESIM_BLOCKED_CONFIRM_MS): the scheduler then looks early.
+var BlockedConfirm = envMillis("PRICESIM_BLOCKED_CONFIRM_MS", 2*time.Millisecond)
+
+var debugSched = os.Getenv("PRICESIM_DEBUG_SCHED") != ""
+
+// hiddenLocksSeen is set when some run of this process has found a client asleep on a lock.
+var hiddenLocksSeen atomic.Bool
+
+func envMillis(name string, def time.Duration) time.Duration {
+	if v, err := strconv.ParseFloat(strings.TrimSpace(os.Getenv(name)), 64); err == nil && v > 0 {
+		return time.Duration(v * float64(time.Millisecond))
+	}
+	return def
+}
 
 // PorcupineTimeout is the per-history linearizability check timeout.
 var PorcupineTimeout = 30 * time.Second
@@ -72,23 +98,39 @@ func (c *rngChooser) Next(runnable []int, last int) int {
 // listChooser replays a recorded schedule without any PRNG. Entries that name a client that is
 // not runnable (possible only after minimisation or a code change) are skipped; when the list is
 // exhausted the lowest-id runnable client continues.
+//
+// blk (parallel to list, may be shorter) is the recorded outcome of each release: true = the
+// released client was found asleep on a lock it took without a yield point. The scheduler uses
+// it as the expected outcome of the step (see await); the classification itself is always taken
+// from the goroutine state, so a stale expectation costs time, never correctness.
 type listChooser struct {
-	list []int
-	pos  int
+	list    []int
+	blk     []bool
+	pos     int
+	lastBlk bool
 }
 
 func (c *listChooser) Next(runnable []int, last int) int {
+	c.lastBlk = false
 	for c.pos < len(c.list) {
-		want := c.list[c.pos]
+		i := c.pos
+		want := c.list[i]
 		c.pos++
 		for _, id := range runnable {
 			if id == want {
+				c.lastBlk = i < len(c.blk) && c.blk[i]
 				return id
 			}
 		}
 	}
 	return runnable[0]
 }
+
+// ExpectBlocked reports the recorded outcome of the release that Next just returned.
+func (c *listChooser) ExpectBlocked() bool { return c.lastBlk }
+
+// blockExpecter is implemented by choosers that replay a recorded trace.
+type blockExpecter interface{ ExpectBlocked() bool }
 
 // Violation describes the first property violation of a run.
 type Violation struct {
@@ -121,6 +163,11 @@ type RunStats struct {
 	ValidationOdd    int // server accepted an invalid batch or rejected a valid one (not part of C20, reported only)
 	ServedPrices     int
 	AbsentPrices     int
+	HiddenLockSleeps int // a released client went to sleep on a lock that it took without a yield point in front
+	HiddenLockWakes  int // such a client got the lock and reached its next yield point / its end
+	MultiMarketReads int // reads that request >= 2 markets
+	MultiMarketUpds  int // updates that carry items for >= 2 distinct markets
+	SnapshotWindows  int // (read, update) pairs in flight together where the update touches >= 2 markets requested by the read
 }
 
 // ExecResult is the outcome of executing one RunSpec under one schedule.
@@ -128,7 +175,8 @@ type ExecResult struct {
 	Violation *Violation
 	Internal  error
 	Schedule  []int
-	SchedOp   []int // op index (of the released client) that each scheduling step belonged to
+	BlockedAt []bool // parallel to Schedule: the client released at this step was found asleep on a real lock
+	SchedOp   []int  // op index (of the released client) that each scheduling step belonged to
 	History   []HistOp
 	Stats     RunStats
 	LogHash   [32]byte
@@ -148,6 +196,16 @@ const (
 	parkOpEnd
 	parkExit
 	parkWatchdog
+	parkProbe // from the monitor: the current wait has lasted until probeAt, have a look at the goroutine states
+)
+
+// clientState is the scheduler's view of a client goroutine.
+type clientState int
+
+const (
+	stParked   clientState = iota // waiting on its resume channel (or finished)
+	stReleased                    // released and not heard of since: on its way to the next yield point
+	stBlocked                     // released and found asleep on a lock (or channel) of the code under test
 )
 
 type parkMsg struct {
@@ -170,6 +228,16 @@ type client struct {
 	pastLock bool // released from a "before Lock" yield, op not finished
 	counted  bool // lock contention already counted for this park
 	callSeq  int64
+
+	gid      uint64      // goroutine id, set by the goroutine itself before its first park
+	state    clientState // scheduler goroutine only
+	stash    parkMsg     // park message received but not yet processed (valid iff stashed)
+	stashed  bool
+	gi       gInfo // the wait in which the client was classified as asleep (valid while stBlocked)
+	seen     gInfo // result of the most recent look
+	started  bool
+	exited   bool
+	unparked bool // resume channel closed (abort)
 }
 
 type simRun struct {
@@ -179,7 +247,7 @@ type simRun struct {
 	srv     *server.Server
 	clients []*client
 	parkCh  chan parkMsg
-	aborted bool
+	aborted atomic.Bool
 	started int
 
 	seq   int64
@@ -192,11 +260,14 @@ type simRun struct {
 	lastSeen []cellObs // last observed stored time per cell that was ever seen (sorted like snapshots)
 	lineBuf  []byte
 
-	// watchdog (see monitor)
+	// watchdog and probe (see monitor)
 	waitSince  atomic.Int64
 	waitWhich  atomic.Int32
-	stallWs    int64 // monitor only
-	stallTicks int   // monitor only
+	probeAt    atomic.Int64     // UnixNano after which the monitor interrupts the wait with a parkProbe (0 = never)
+	curWs      int64            // scheduler goroutine only: start of the current wait
+	dump       map[uint64]gInfo // most recent goroutine dump (client goroutines of the whole process; shared, read-only)
+	stallWs    int64            // monitor only
+	stallTicks int              // monitor only
 	exitCh     chan parkMsg
 }
 
@@ -252,32 +323,88 @@ func slowGoid() uint64 {
 	return id
 }
 
-// recv is a plain blocking receive (which = 0: park channel, 1: exit channel) that the monitor
-// goroutine can interrupt with a watchdog message when it lasts longer than Watchdog. Per-step
-// timers would be far more expensive than this.
-func (r *simRun) recv(which int32) (parkMsg, bool) {
+type recvStatus int
+
+const (
+	recvMsg      recvStatus = iota // a client parked (or exited)
+	recvProbe                      // the wait reached probeAt: look at the goroutine states and wait on
+	recvWatchdog                   // no progress for Watchdog
+)
+
+// recv is a plain blocking receive (which = 0: park channel, 1: park and exit channel) that the
+// monitor goroutine can interrupt: with a probe message once the wait has lasted `probe` (0 = no
+// probe) and with a watchdog message when it lasts longer than Watchdog. Per-step timers would
+// be far more expensive than this. cont continues the wait that a probe interrupted (the
+// watchdog keeps counting from its start).
+func (r *simRun) recv(which int32, cont bool, probe time.Duration) (m parkMsg, fromExit bool, st recvStatus) {
+	now := time.Now().UnixNano()
+	if !cont || r.curWs == 0 {
+		r.curWs = now
+	}
+	ws := r.curWs
+	if probe > 0 {
+		r.probeAt.Store(now + int64(probe))
+	} else {
+		r.probeAt.Store(0)
+	}
+	r.waitWhich.Store(which)
+	r.waitSince.Store(ws)
 	for {
-		ws := time.Now().UnixNano()
-		r.waitWhich.Store(which)
-		r.waitSince.Store(ws)
-		var m parkMsg
+		fromExit = false
 		if which == 0 {
 			m = <-r.parkCh
 		} else {
-			m = <-r.exitCh
+			select {
+			case m = <-r.parkCh:
+			case m = <-r.exitCh:
+				fromExit = true
+			}
 		}
-		r.waitSince.Store(0)
-		if m.kind == parkWatchdog {
+		switch m.kind {
+		case parkWatchdog:
 			if m.ws != ws {
 				continue // stale interrupt aimed at an earlier wait
 			}
-			return parkMsg{}, false
+			r.waitSince.Store(0)
+			r.probeAt.Store(0)
+			r.curWs = 0
+			return parkMsg{}, false, recvWatchdog
+		case parkProbe:
+			if m.ws != ws || probe <= 0 {
+				continue
+			}
+			// waitSince stays set: the same wait goes on after the look
+			return parkMsg{}, false, recvProbe
 		}
-		return m, true
+		r.waitSince.Store(0)
+		r.probeAt.Store(0)
+		r.curWs = 0
+		return m, fromExit, recvMsg
 	}
 }
 
-const monitorTick = 250 * time.Millisecond
+// monitorTick is the period of the monitor goroutine: 2 ms, less if BlockedAfter is set below 4 ms
+// (only done to stress the classification in self-tests).
+var monitorTick = tickFor(BlockedAfter)
+
+func tickFor(blockedAfter time.Duration) time.Duration {
+	t := 2 * time.Millisecond
+	if blockedAfter/2 < t {
+		t = blockedAfter / 2
+	}
+	if t < 20*time.Microsecond {
+		t = 20 * time.Microsecond
+	}
+	return t
+}
+
+// SetBlockedAfter overrides BlockedAfter (command line); call before the first run.
+func SetBlockedAfter(d time.Duration) {
+	if d > 0 {
+		BlockedAfter = d
+		monitorTick = tickFor(d)
+	}
+}
 
 var watchdogDump sync.Once
 
@@ -306,7 +433,9 @@ func monitorRemove(r *simRun) {
 	monitorMu.Unlock()
 }
 
-// monitorLoop is the watchdog: it never influences a run that makes progress.
+// monitorLoop delivers probes and is the watchdog: it never influences a run that makes progress
+// (a probe only makes the scheduler look at goroutine states, which changes nothing unless a
+// goroutine really sleeps on a lock).
 func monitorLoop() {
 	for {
 		time.Sleep(monitorTick)
@@ -322,6 +451,13 @@ func monitorLoop() {
 				continue
 			}
 			r.stallTicks++
+			if pa := r.probeAt.Load(); pa != 0 && now >= pa {
+				select {
+				case r.parkCh <- parkMsg{kind: parkProbe, ws: ws}:
+					r.probeAt.CompareAndSwap(pa, 0)
+				default: // the scheduler is not in its receive right now: next tick
+				}
+			}
 			if now-ws < int64(Watchdog) || r.stallTicks < int(Watchdog/monitorTick) {
 				continue
 			}
@@ -357,11 +493,19 @@ func hookFn(point string) {
 	c.park(parkMsg{c: c, kind: parkYield, point: point})
 }
 
-// park hands control back to the scheduler and blocks until released.
+// park hands control back to the scheduler and blocks until released. After the run has been
+// aborted (violation found, or trouble) a goroutine that arrives here exits instead: this is
+// how a client that was asleep on a lock leaves once the holder's deferred Unlock has run.
 func (c *client) park(m parkMsg) {
+	if c.run.aborted.Load() {
+		runtime.Goexit()
+	}
 	c.run.parkCh <- m
+	if m.kind == parkExit {
+		return
+	}
 	<-c.resume
-	if c.run.aborted {
+	if c.run.aborted.Load() {
 		runtime.Goexit()
 	}
 }
@@ -369,16 +513,17 @@ func (c *client) park(m parkMsg) {
 func (c *client) main() {
 	defer func() { c.run.exitCh <- parkMsg{c: c, kind: parkExit} }()
 	id := goid()
+	c.gid = id
 	registry.Store(id, c)
 	defer registry.Delete(id)
 	c.park(parkMsg{c: c, kind: parkReady})
 	for i := range c.ops {
 		out := c.run.doOp(c.ops[i])
+		kind := parkOpEnd
 		if i == len(c.ops)-1 {
-			c.run.parkCh <- parkMsg{c: c, kind: parkExit, out: out}
-			return
+			kind = parkExit
 		}
-		c.park(parkMsg{c: c, kind: parkOpEnd, out: out})
+		c.park(parkMsg{c: c, kind: kind, out: out})
 	}
 }
 
@@ -687,7 +832,160 @@ func readPoolOf(spec RunSpec) []int64 {
 	return out
 }
 
+// peek takes one ordinary goroutine dump and updates the scheduler's view of its sleepers: a
+// client that is no longer in the wait in which it was classified has been woken (stReleased
+// again). It reports whether a released client looks asleep inside the code under test, which
+// classify then settles exactly.
+func (r *simRun) peek() (candidate bool) {
+	r.dump, _ = dumpClients()
+	return r.apply(false)
+}
+
+// apply evaluates r.dump for the clients of this run. exact = the dump was quiescent (see gstate.go).
+func (r *simRun) apply(exact bool) (candidate bool) {
+	for _, c := range r.clients {
+		if !c.started || c.exited || c.done || c.state == stParked {
+			continue
+		}
+		gi := r.dump[c.gid] // zero value (gActive) if the goroutine is not in the dump
+		if c.state == stBlocked && !gi.sameWait(c.gi) {
+			c.state = stReleased // woken (and possibly asleep again somewhere else)
+		}
+		if c.state == stReleased {
+			c.seen = gi
+			if gi.asleep() {
+				if exact {
+					c.state, c.gi = stBlocked, gi
+					hiddenLocksSeen.Store(true)
+				} else {
+					candidate = true
+				}
+			}
+		}
+	}
+	return candidate
+}
+
+// classify settles, exactly, which released clients of this run are asleep inside the code
+// under test: it asks every scheduler of the process to stop releasing clients, takes dumps until
+// one shows every client goroutine of the process parked or asleep, and classifies from that one.
+// It gives up early when no client of this run looks asleep any more (it was a short wait for a
+// process-wide lock held by a running goroutine of another worker). force = go for a quiescent dump
+// even then (used before a dead-lock verdict).
+func (r *simRun) classify(force bool) error {
+	pauseBegin()
+	defer pauseEnd()
+	t0 := time.Now()
+	wait := 50 * time.Microsecond
+	dumps := 0
+	for {
+		var quiescent bool
+		r.dump, quiescent = dumpClients()
+		dumps++
+		if quiescent {
+			r.apply(true)
+			if debugSched {
+				fmt.Fprintf(os.Stderr, "pricesim debug: classified after %d dumps, %v (wait began %v ago)\n", dumps, time.Since(t0), time.Duration(time.Now().UnixNano()-r.curWs))
+			}
+			return nil
+		}
+		if !r.apply(false) && !force {
+			return nil
+		}
+		if time.Since(t0) > Watchdog {
+			return fmt.Errorf("watchdog: the client goroutines of the process did not all come to rest within %v while classifying a silent client", Watchdog)
+		}
+		time.Sleep(wait)
+		if wait < 2*time.Millisecond {
+			wait *= 2
+		}
+	}
+}
+
+func (r *simRun) count(st clientState) int {
+	n := 0
+	for _, c := range r.clients {
+		if c.started && !c.exited && !c.done && c.state == st {
+			n++
+		}
+	}
+	return n
+}
+
+// await returns when the run is quiescent again: every released client has either reached a
+// yield point / its end (its message is stashed in the client) or is asleep on a lock of the
+// code under test (stBlocked), and every client that was asleep before and got woken by what
+// happened in this step has done the same. expectBlocked is the recorded outcome of the step
+// under replay: the first look then happens after BlockedConfirm instead of BlockedAfter.
+//
+// The result does not depend on when the looks happen: whether a goroutine ends up at a yield
+// point or asleep is decided by the state of the locks, which only the (single) running client
+// changes; the elapsed time merely triggers a look at the runtime's goroutine states.
+func (r *simRun) await(expectBlocked bool) error {
+	verify := false // something happened since the sleepers were last seen asleep
+	cont := false
+	// Once a sleeper has been found in this process the code under test evidently takes locks
+	// without yield points: look early from then on (looking early costs a dump, nothing else).
+	first := BlockedAfter
+	if expectBlocked || hiddenLocksSeen.Load() {
+		first = BlockedConfirm
+	}
+	delay := first
+	for {
+		if r.count(stReleased) == 0 {
+			if !verify || r.count(stBlocked) == 0 {
+				return nil
+			}
+			r.peek()
+			verify = false
+			continue
+		}
+		m, _, st := r.recv(0, cont, delay)
+		switch st {
+		case recvMsg:
+			x := m.c
+			if x == nil || x.state == stParked || x.stashed {
+				id := -1
+				if x != nil {
+					id = x.id
+				}
+				return fmt.Errorf("scheduler invariant broken: client %d parked although it had not been released", id)
+			}
+			x.state, x.stash, x.stashed = stParked, m, true
+			verify, cont = true, false
+			delay = first
+		case recvProbe:
+			cont = true
+			if r.peek() {
+				if err := r.classify(false); err != nil {
+					return err
+				}
+				delay = first
+			} else if delay *= 2; delay > time.Second {
+				delay = time.Second
+			}
+			verify = false
+		default:
+			var who []string
+			for _, c := range r.clients {
+				if c.started && !c.exited && c.state == stReleased {
+					who = append(who, fmt.Sprintf("client %d (goroutine state %q in %s)", c.id, c.seen.state, c.seen.where))
+				}
+			}
+			return fmt.Errorf("watchdog: %s neither reached a yield point nor went to sleep on a lock within %v after being released", strings.Join(who, ", "), Watchdog)
+		}
+	}
+}
+
 // Execute runs one history: real goroutines, released strictly one at a time.
+//
+// One-at-a-time holds for everything that goes through yield points. A client that takes a lock
+// WITHOUT a yield point in front of it, while a parked client holds that lock, goes to sleep
+// inside the real Lock call; the scheduler notices (await), keeps it in the blocked set and goes
+// on with the other clients. When the holder is released and unlocks, the sleeper continues by
+// itself up to its next yield point (or the end of its operation) and re-enters the scheduler
+// there; the step of the client that unlocked only ends when that has happened, so the next
+// scheduling decision is again taken with every goroutine parked or asleep.
 func Execute(spec RunSpec, ch Chooser, opts ExecOpts) *ExecResult {
 	res := &ExecResult{}
 	if !HookInstalled() {
@@ -711,7 +1009,6 @@ func Execute(spec RunSpec, ch Chooser, opts ExecOpts) *ExecResult {
 
 	monitorAdd(r)
 	defer monitorRemove(r)
-	wait := func() (parkMsg, bool) { return r.recv(0) }
 
 	// start clients one by one; each parks immediately at "ready"
 	for id, ops := range spec.Clients {
@@ -722,134 +1019,106 @@ func Execute(spec RunSpec, ch Chooser, opts ExecOpts) *ExecResult {
 			continue
 		}
 		r.started++
+		c.started = true
+		c.state = stReleased
+		pausePoint()
 		go c.main()
-		if _, ok := wait(); !ok {
+		if _, _, st := r.recv(0, false, 0); st != recvMsg {
 			res.Internal = fmt.Errorf("watchdog: client %d did not reach its start point", id)
 			return res
 		}
+		c.state = stParked
 	}
 
 	finish := func() {
-		// let every parked goroutine exit (runs deferred Unlock calls, nothing else)
-		r.aborted = true
-		for _, c := range r.clients {
-			close(c.resume)
-		}
-		for n := 0; n < r.started; n++ {
-			if _, ok := r.recv(1); !ok {
-				if res.Internal == nil && res.Violation == nil {
-					res.Internal = fmt.Errorf("watchdog: client goroutines did not exit")
+		// Let every goroutine exit, one at a time: a parked client runs its deferred Unlock calls and
+		// nothing else; a client that was asleep on a lock wakes up when the holder has exited, runs
+		// to its next yield point and exits there (park). Clients that stay asleep for good (the code
+		// under test dead-locked) are left behind.
+		r.aborted.Store(true)
+		ok := true
+		// pump receives until cond holds; false = watchdog
+		pump := func(cond func() bool) bool {
+			cont := false
+			for !cond() {
+				probe := time.Duration(0)
+				if r.count(stReleased) > 0 {
+					probe = BlockedAfter
 				}
-				break
+				m, fromExit, st := r.recv(1, cont, probe)
+				switch st {
+				case recvWatchdog:
+					return false
+				case recvProbe:
+					cont = true
+					if r.peek() {
+						if r.classify(false) != nil {
+							return false
+						}
+					}
+					continue
+				}
+				cont = false
+				if m.c == nil {
+					continue
+				}
+				if fromExit {
+					m.c.exited = true
+				} else if m.c.state != stParked {
+					m.c.state = stParked // was still on its way when the run was aborted
+				}
 			}
+			return true
+		}
+		settled := func() bool { return r.count(stReleased) == 0 }
+		for again := true; again && ok; {
+			again = false
+			for _, c := range r.clients {
+				if !c.started || c.exited || c.unparked || c.state != stParked {
+					continue
+				}
+				again = true
+				c.unparked = true
+				pausePoint()
+				close(c.resume)
+				if ok = pump(func() bool { return c.exited }); !ok {
+					break
+				}
+				for ok && r.count(stBlocked) > 0 {
+					r.peek()
+					if settled() {
+						break
+					}
+					ok = pump(settled)
+				}
+				if !ok {
+					break
+				}
+			}
+		}
+		for _, c := range r.clients {
+			if !c.unparked {
+				c.unparked = true
+				close(c.resume)
+			}
+		}
+		if !ok && res.Internal == nil && res.Violation == nil {
+			res.Internal = fmt.Errorf("watchdog: client goroutines did not exit")
 		}
 		res.Schedule = append([]int(nil), res.Schedule...)
 		res.Stats = r.stats
 		copy(res.LogHash[:], r.h.Sum(nil))
 		res.Log = r.log
-		res.SchedHash = schedHash(spec, res.Schedule)
+		res.SchedHash = schedHash(spec, res.Schedule, res.BlockedAt)
 	}
 	defer finish()
 
 	hist := make([]HistOp, 0, spec.NumOps())
-	last := -1
-	runnable := make([]int, 0, len(r.clients))
-	for {
-		runnable = runnable[:0]
-		allDone := true
-		for _, c := range r.clients {
-			if c.done {
-				continue
-			}
-			allDone = false
-			if c.atLock {
-				if !lockFree(r.mte, c.ops[c.cur].Kind == OpRead) {
-					if !c.counted {
-						c.counted = true
-						r.stats.LockContention++
-						r.logf("%d c%d blocked-on-lock", r.seq, c.id)
-					}
-					continue
-				}
-			}
-			runnable = append(runnable, c.id)
-		}
-		if allDone {
-			break
-		}
-		if len(runnable) == 0 {
-			var holders []string
-			for _, c := range r.clients {
-				if !c.done && c.pastLock {
-					holders = append(holders, fmt.Sprintf("c%d", c.id))
-				}
-			}
-			res.Violation = &Violation{Kind: KindDeadlock, Detail: fmt.Sprintf(
-				"every unfinished client is waiting for the cache lock, which is held although no operation is inside a critical section (in-flight past Lock: %v)", holders)}
-			return res
-		}
-		pickID := ch.Next(runnable, last)
-		last = pickID
-		c := r.clients[pickID]
-		res.Schedule = append(res.Schedule, pickID)
-		if c.cur < 0 {
-			res.SchedOp = append(res.SchedOp, c.next)
-		} else {
-			res.SchedOp = append(res.SchedOp, c.cur)
-		}
-		r.stats.Steps++
-		r.seq++
 
-		if c.cur < 0 {
-			// invocation of the next op
-			c.cur = c.next
-			c.next++
-			c.callSeq = r.seq
-			op := c.ops[c.cur]
-			for _, d := range r.clients {
-				if d != c && d.cur >= 0 {
-					r.stats.ConcurrentOps = true
-				}
-			}
-			r.logf("%d c%d invoke op%d %s", r.seq, c.id, c.cur, op.String())
-			if op.Kind == OpUpdate {
-				r.snapBuf = snapshot(r.mte, r.snapBuf)
-				r.classifyUpdate(c, op, readPool)
-			}
-		} else if c.atLock {
-			// passing the Lock point: the probe said the lock is free (or absent)
-			for _, d := range r.clients {
-				if d != c && !d.done && d.pastLock {
-					r.stats.OverlapEvents++
-					w := c.ops[c.cur].Kind == OpUpdate || d.ops[d.cur].Kind == OpUpdate
-					r.logf("%d c%d enters critical section while c%d is inside (writer involved: %v)", r.seq, c.id, d.id, w)
-					if w {
-						r.stats.OverlapWithWrite++
-						if res.Violation == nil && !disabledOracles["overlap"] {
-							res.Violation = &Violation{Kind: KindOverlap, Detail: fmt.Sprintf(
-								"client %d (%s) passed its Lock point while client %d (%s) was still inside its critical section: the lock does not exclude them (event %d)",
-								c.id, c.ops[c.cur].String(), d.id, d.ops[d.cur].String(), r.seq)}
-						}
-					}
-				}
-			}
-			c.pastLock = true
-			c.atLock = false
-			c.counted = false
-		}
-		// an overlap involving a writer is reported only if nothing more specific shows up
-		// later in the run: keep going so that the history also shows the consequence.
-
-		c.resume <- struct{}{}
-		m, ok := wait()
-		if !ok {
-			res.Internal = fmt.Errorf("watchdog: client %d did not park within %v after being released (blocked on a real lock?)", c.id, Watchdog)
-			return res
-		}
-		if m.c != c {
-			res.Internal = fmt.Errorf("scheduler invariant broken: client %d parked while client %d was released", m.c.id, c.id)
-			return res
-		}
+	// arrived processes the stashed park message of client c. stop = the run ends here.
+	arrived := func(c *client) (stop bool) {
+		m := c.stash
+		c.stashed = false
 		r.seq++
 		switch m.kind {
 		case parkYield:
@@ -889,7 +1158,7 @@ func Execute(spec RunSpec, ch Chooser, opts ExecOpts) *ExecResult {
 			}
 		default:
 			res.Internal = fmt.Errorf("unexpected park kind %d", m.kind)
-			return res
+			return true
 		}
 		if v := r.observe(); v != nil && !disabledOracles["monotonic"] && (res.Violation == nil || res.Violation.Kind == KindOverlap) {
 			res.Violation = v
@@ -903,7 +1172,231 @@ func Execute(spec RunSpec, ch Chooser, opts ExecOpts) *ExecResult {
 		}
 		if res.Violation != nil && res.Violation.Kind != KindOverlap {
 			res.History = hist
+			return true
+		}
+		return false
+	}
+
+	exp, _ := ch.(blockExpecter)
+	last := -1
+	runnable := make([]int, 0, len(r.clients))
+	for {
+		runnable = runnable[:0]
+		allDone := true
+		asleep := 0
+		for _, c := range r.clients {
+			if c.done {
+				continue
+			}
+			allDone = false
+			if c.state == stBlocked {
+				asleep++
+				continue
+			}
+			if c.atLock {
+				if !lockFree(r.mte, c.ops[c.cur].Kind == OpRead) {
+					if !c.counted {
+						c.counted = true
+						r.stats.LockContention++
+						r.logf("%d c%d blocked-on-lock", r.seq, c.id)
+					}
+					continue
+				}
+			}
+			runnable = append(runnable, c.id)
+		}
+		if allDone {
+			break
+		}
+		if len(runnable) == 0 {
+			if asleep == 0 {
+				var holders []string
+				for _, c := range r.clients {
+					if !c.done && c.pastLock {
+						holders = append(holders, fmt.Sprintf("c%d", c.id))
+					}
+				}
+				res.Violation = &Violation{Kind: KindDeadlock, Detail: fmt.Sprintf(
+					"every unfinished client is waiting for the cache lock, which is held although no operation is inside a critical section (in-flight past Lock: %v)", holders)}
+				return res
+			}
+			// Nobody can be released: every unfinished client is asleep inside the code under test or
+			// waits at its Lock point for a lock that a sleeper holds. This verdict is final, so the
+			// sleepers are looked at again, twice, before it is given.
+			woke := false
+			for k := 0; k < 2 && !woke; k++ {
+				time.Sleep(BlockedAfter)
+				if err := r.classify(true); err != nil {
+					res.Internal = err
+					return res
+				}
+				woke = r.count(stReleased) > 0 || r.count(stBlocked) != asleep
+			}
+			if woke {
+				if err := r.await(false); err != nil {
+					res.Internal = err
+					return res
+				}
+				stop := false
+				for _, x := range r.clients {
+					if x.stashed && !stop {
+						r.stats.HiddenLockWakes++
+						r.seq++
+						r.logf("%d c%d got the lock it was asleep on and went on", r.seq, x.id)
+						stop = arrived(x)
+					}
+				}
+				if stop {
+					return res
+				}
+				continue
+			}
+			var who []string
+			locksOnly := true
+			for _, c := range r.clients {
+				switch {
+				case c.done:
+				case c.state == stBlocked:
+					who = append(who, fmt.Sprintf("client %d (%s) asleep in %s [%s]", c.id, c.ops[c.cur].String(), c.gi.where, c.gi.state))
+					if c.gi.wait != gLockWait {
+						locksOnly = false
+					}
+				default:
+					who = append(who, fmt.Sprintf("client %d (%s) at its Lock point, lock not free", c.id, c.ops[c.cur].String()))
+				}
+			}
+			if locksOnly {
+				// sync.Mutex / RWMutex / Cond waits can only be ended by another goroutine, and no simulated
+				// goroutine can run: the code under test has dead-locked (taken from goroutine states, not from a time-out)
+				res.Violation = &Violation{Kind: KindDeadlock, Detail: "no client can make progress: " + strings.Join(who, "; ")}
+				res.History = hist
+				return res
+			}
+			// channel / select waits might be ended from outside the simulation: give them the watchdog time
+			m, _, st := r.recv(0, false, 0)
+			if st != recvMsg || m.c == nil || m.c.state != stBlocked {
+				res.Internal = fmt.Errorf("watchdog: simulator dead-locked, nothing runnable and nothing asleep that can make progress: %s", strings.Join(who, "; "))
+				return res
+			}
+			m.c.state, m.c.stash, m.c.stashed = stParked, m, true
+			r.peek()
+			if err := r.await(false); err != nil {
+				res.Internal = err
+				return res
+			}
+			stop := false
+			for _, x := range r.clients {
+				if x.stashed && !stop {
+					r.stats.HiddenLockWakes++
+					r.seq++
+					r.logf("%d c%d woke up and went on", r.seq, x.id)
+					stop = arrived(x)
+				}
+			}
+			if stop {
+				return res
+			}
+			continue
+		}
+		pickID := ch.Next(runnable, last)
+		expectBlocked := exp != nil && exp.ExpectBlocked()
+		last = pickID
+		c := r.clients[pickID]
+		res.Schedule = append(res.Schedule, pickID)
+		if c.cur < 0 {
+			res.SchedOp = append(res.SchedOp, c.next)
+		} else {
+			res.SchedOp = append(res.SchedOp, c.cur)
+		}
+		r.stats.Steps++
+		r.seq++
+
+		if c.cur < 0 {
+			// invocation of the next op
+			c.cur = c.next
+			c.next++
+			c.callSeq = r.seq
+			op := c.ops[c.cur]
+			for _, d := range r.clients {
+				if d != c && d.cur >= 0 {
+					r.stats.ConcurrentOps = true
+					r.countSnapshotWindow(op, d.ops[d.cur])
+				}
+			}
+			r.logf("%d c%d invoke op%d %s", r.seq, c.id, c.cur, op.String())
+			if op.Kind == OpUpdate {
+				r.snapBuf = snapshot(r.mte, r.snapBuf)
+				r.classifyUpdate(c, op, readPool)
+				if distinctMarkets(op) >= 2 {
+					r.stats.MultiMarketUpds++
+				}
+			} else if len(op.Params) >= 2 {
+				r.stats.MultiMarketReads++
+			}
+		} else if c.atLock {
+			// passing the Lock point: the probe said the lock is free (or absent)
+			for _, d := range r.clients {
+				if d != c && !d.done && d.pastLock {
+					r.stats.OverlapEvents++
+					w := c.ops[c.cur].Kind == OpUpdate || d.ops[d.cur].Kind == OpUpdate
+					r.logf("%d c%d enters critical section while c%d is inside (writer involved: %v)", r.seq, c.id, d.id, w)
+					if w {
+						r.stats.OverlapWithWrite++
+						if res.Violation == nil && !disabledOracles["overlap"] {
+							res.Violation = &Violation{Kind: KindOverlap, Detail: fmt.Sprintf(
+								"client %d (%s) passed its Lock point while client %d (%s) was still inside its critical section: the lock does not exclude them (event %d)",
+								c.id, c.ops[c.cur].String(), d.id, d.ops[d.cur].String(), r.seq)}
+						}
+					}
+				}
+			}
+			c.pastLock = true
+			c.atLock = false
+			c.counted = false
+		}
+		// an overlap involving a writer is reported only if nothing more specific shows up
+		// later in the run: keep going so that the history also shows the consequence.
+
+		c.state = stReleased
+		pausePoint()
+		c.resume <- struct{}{}
+		if err := r.await(expectBlocked); err != nil {
+			res.Internal = err
 			return res
+		}
+		// The events of this step, in a fixed order: first the released client, then, by client id,
+		// every client that had been asleep on a lock and has now reached a yield point or its end.
+		if c.state == stBlocked {
+			res.BlockedAt = append(res.BlockedAt, true)
+			r.stats.HiddenLockSleeps++
+			r.seq++
+			r.logf("%d c%d asleep on a real lock in %s [%s]: no yield point in front of this acquisition", r.seq, c.id, c.gi.where, c.gi.state)
+			if debugSched {
+				fmt.Fprintf(os.Stderr, "pricesim debug: c%d asleep in %s [%s] lock=%s; process dump:\n", c.id, c.gi.where, c.gi.state, c.gi.lock)
+				for id, gi := range r.dump {
+					fmt.Fprintf(os.Stderr, "   g%d wait=%d state=%q where=%s lock=%s\n", id, gi.wait, gi.state, gi.where, gi.lock)
+				}
+			}
+			if v := r.observe(); v != nil && !disabledOracles["monotonic"] && (res.Violation == nil || res.Violation.Kind == KindOverlap) {
+				res.Violation = v
+				res.History = hist
+				return res
+			}
+		} else {
+			res.BlockedAt = append(res.BlockedAt, false)
+			if arrived(c) {
+				return res
+			}
+		}
+		for _, x := range r.clients {
+			if x.stashed {
+				r.stats.HiddenLockWakes++
+				r.seq++
+				r.logf("%d c%d got the lock it was asleep on and went on", r.seq, x.id)
+				if arrived(x) {
+					return res
+				}
+			}
 		}
 	}
 	res.History = hist
@@ -923,6 +1416,62 @@ func Execute(spec RunSpec, ch Chooser, opts ExecOpts) *ExecResult {
 	return res
 }
 
+func distinctMarkets(op Op) int {
+	n := 0
+	for i, mu := range op.Batch {
+		dup := false
+		for _, prev := range op.Batch[:i] {
+			if prev.Market == mu.Market {
+				dup = true
+			}
+		}
+		if !dup && len(mu.Prices) > 0 {
+			n++
+		}
+	}
+	return n
+}
+
+// countSnapshotWindow counts a (read, update) pair that is in flight together where the update
+// carries items for at least two of the markets the read requests: the situation in which a read
+// that is not atomic over its markets can return a mix of two cache states.
+func (r *simRun) countSnapshotWindow(a, b Op) {
+	if a.Kind == b.Kind {
+		return
+	}
+	rd, up := a, b
+	if a.Kind == OpUpdate {
+		rd, up = b, a
+	}
+	if len(rd.Params) < 2 {
+		return
+	}
+	n := 0
+	for i, mu := range up.Batch {
+		if len(mu.Prices) == 0 {
+			continue
+		}
+		dup := false
+		for _, prev := range up.Batch[:i] {
+			if prev.Market == mu.Market && len(prev.Prices) > 0 {
+				dup = true
+			}
+		}
+		if dup {
+			continue
+		}
+		for _, p := range rd.Params {
+			if p.Market == mu.Market {
+				n++
+				break
+			}
+		}
+	}
+	if n >= 2 {
+		r.stats.SnapshotWindows++
+	}
+}
+
 func linDetail(spec RunSpec, hist []HistOp) string {
 	var sb strings.Builder
 	fmt.Fprintf(&sb, "history of %d operations is not linearizable against the sequential model (maxAge=%dns):", len(hist), spec.MaxAgeNs)
@@ -933,7 +1482,7 @@ func linDetail(spec RunSpec, hist []HistOp) string {
 }
 
 // schedHash identifies a schedule: released-client sequence plus the op kinds of every client.
-func schedHash(spec RunSpec, schedule []int) uint64 {
+func schedHash(spec RunSpec, schedule []int, blocked []bool) uint64 {
 	h := uint64(14695981039346656037)
 	mix := func(b byte) {
 		h ^= uint64(b)
@@ -951,8 +1500,11 @@ func schedHash(spec RunSpec, schedule []int) uint64 {
 		}
 		mix('|')
 	}
-	for _, id := range schedule {
+	for i, id := range schedule {
 		mix(byte(id))
+		if i < len(blocked) && blocked[i] {
+			mix(0xfe) // this release ended asleep on a real lock
+		}
 	}
 	return h
 }
